@@ -21,9 +21,13 @@ def _table(graph: Any, ids: Dict[str, str], only: Optional[List[str]] = None) ->
 
 
 def _order(callable_: Any, keymap: Dict[str, str]) -> List[str]:
+    import asyncio
+
     ex = sched.Exec("free")
     with ex:
-        callable_()
+        r = callable_()
+        if asyncio.iscoroutine(r):
+            asyncio.run(r)
     inv = {k: s for s, k in keymap.items()}
     return [inv.get(e["site"], e["site"]) for e in ex.events if e["k"] == "ENTER"]
 
@@ -32,7 +36,7 @@ def evaluate(case: Dict[str, Any]) -> Dict[str, Any]:
     """Everything C07 observes about one case, as plain data."""
     P = case["prog"]
     out: Dict[str, Any] = {}
-    b = prog.build(P, mc=1)
+    b = prog.build(P, mc=1, is_async=bool(case.get("async")))
     ids = b.node_ids()
     keymap = prog.key_of(P)
     out["t0"] = _table(b.dag.graph_ids, ids)
